@@ -61,6 +61,7 @@ int shp_rs8_available(void);
 void shp_rs8_addmul1(uint8_t *dst, uint8_t *src, uint8_t c, int sz);
 /* which: 0 exp (elem 1 byte), 1 log (int), 2 inverse (1 byte), 3 mul_table (1 byte, row stride in *stride) */
 int shp_rs8_table(int which, const void **p, size_t *elem_size, size_t *count, size_t *stride);
+int shp_rs8_use(int flavour, uint64_t start, uint64_t count);   /* creates/uses/frees codec contexts of the private copy */
 void shp_rs8_reinit(void);   /* calls the exported of_rs_init() once more (regeneration must be idempotent) */
 
 /* probe_gf: precomputed tables of the GF(2^m) codec.
